@@ -293,6 +293,79 @@ def replay_dispatch(model, seed, inst):
 
 
 
+def reloaded_frozen_weights(run):
+    """A frozen quantized weight stays out of training after a state_dict round trip: loaded into an unfrozen or a frozen module,
+    with or without assign, the installed weight does not require grad."""
+    for weights in ("qint8", "qint4"):
+        for target in ("unfrozen", "frozen"):
+            for assign in (False, True):
+                inst = {"lemma": "reloaded frozen weight", "weights": weights, "target": target, "assign": assign}
+                run.count_instance(**{"rl_w": weights, "rl_t": target, "rl_a": assign})
+                E = OC.engine(run)
+                E.load_module(QLIN)
+                F, O = z3.Ints("F O")
+
+                def prog(E2, weights=weights, target=target, assign=assign):
+                    E2.assume(F >= 1)
+                    E2.assume(O >= 1)
+                    qt = E2.load_module(OC.QTYPE).env.lookup(weights)
+                    QL = E2.get(f"{QLIN}::QLinear")
+                    src = E2.call(QL, [F, O], {"weights": qt})
+                    E2.call(E2.getattr(src, "freeze"), [], {})
+                    sd = E2.call(E2.getattr(src, "state_dict"), [], {"prefix": "layer."})
+                    tgt = E2.call(QL, [F, O], {"weights": qt})
+                    if target == "frozen":
+                        E2.call(E2.getattr(tgt, "freeze"), [], {})
+                    before_rg = getattr(tgt.fields["weight"], "requires_grad", None)
+                    E2.call(E2.getattr(tgt, "_load_from_state_dict"), [dict(sd), "layer.", {"assign_to_params_buffers": assign}, True, [], [], []], {})
+                    return tgt, before_rg
+
+                tag = f"{weights}/{target}/assign={assign}"
+                try:
+                    res = E.explore(Builtin("c11r", prog), lambda E2: ([], {}), name="C11.reload")
+                except Unsupported as u:
+                    run.undecide(f"C11/reload[{tag}]", u, inst)
+                    continue
+                run.absorb(E)
+                if not run.expect_paths(res, f"C11/reload[{tag}]", inst):
+                    continue
+                rp = lambda m, s, i=dict(inst): replay_reload(m, s, i)
+                for pi, r in enumerate(res):
+                    if r.outcome != "return":
+                        continue   # C10's business
+                    tgt, before_rg = r.value
+                    fw = tgt.fields["weight"]
+                    rg = fw.fields.get("_w_requires_grad") if is_wrapper(fw) else getattr(fw, "requires_grad", None)
+                    run.add(f"C11/frozen/reloaded-frozen-weight-does-not-require-grad[{tag}]/path{pi}", r.hyps, z3.BoolVal(is_wrapper(fw) and rg is False), "property", inst,
+                            {"requires_grad": rg, "target_weight_required_grad_before": before_rg}, replay=rp)
+
+
+def replay_reload(model, seed, inst):
+    import torch
+    from optimum.quanto import qtypes
+    from optimum.quanto.nn import QLinear
+    from optimum.quanto.tensor import QTensor
+
+    torch.manual_seed(seed)
+    qt = qtypes[inst["weights"]]
+    src = QLinear(16, 8, weights=qt)
+    src.freeze()
+    tgt = QLinear(16, 8, weights=qt)
+    if inst["target"] == "frozen":
+        tgt.freeze()
+    tgt.load_state_dict(src.state_dict(), assign=inst["assign"])
+    if not isinstance(tgt.weight, QTensor):
+        return None
+    if tgt.weight.requires_grad:
+        return {"what": "a frozen quantized weight reloaded from a state_dict requires grad", "target": inst["target"], "assign": inst["assign"]}
+    out = tgt(torch.randn(2, 16, requires_grad=True)).sum()
+    out.backward()
+    if tgt.weight.grad is not None:
+        return {"what": "a reloaded frozen quantized weight received a gradient"}
+    return None
+
+
+
 def freshness(run):
     """Until frozen every access to qweight re-quantizes from the CURRENT float weights (no hidden cache); frozen weights get no gradient."""
     for weights in ("qint8", "qint4"):
@@ -387,7 +460,7 @@ def build(run):
     for key in (f"{OC.QFUNC}::QTensorLinear.forward", f"{OC.QFUNC}::QTensorLinear.backward", f"{QMOD}::QModuleMixin.qweight", f"{QMOD}::QModuleMixin.freeze"):
         run.under_contract(E0, key)
     lib.lean_lemmas(run, ["sum_linear", "flat_div", "flat_mod"])
-    for part in (identity_backwards, linear_backward, linear_dispatch, freshness):
+    for part in (identity_backwards, linear_backward, linear_dispatch, reloaded_frozen_weights, freshness):
         try:
             part(run)
         except Unsupported as u:
@@ -471,6 +544,8 @@ def replay_file(path):
         r = replay_ste({}, 0)
     elif inst.get("lemma") == "qweight freshness":
         r = replay_fresh({}, 0, inst)
+    elif inst.get("lemma") == "reloaded frozen weight":
+        r = replay_reload({}, 0, inst)
     elif inst.get("lemma") == "linear dispatch":
         r = replay_dispatch({}, 0, inst)
     else:
